@@ -78,7 +78,7 @@ fn parse_bound<K: HKey>(s: &str) -> Bound<K> {
     else if let Some(h) = s.strip_prefix("E:") { Bound::Excluded(K::from_key_bytes(&unhex(h)).expect("valid key")) }
     else { panic!("bad bound {s}") }
 }
-fn key<K: HKey>(h: &str) -> K { K::from_key_bytes(&unhex(h)).unwrap_or_else(|| panic!("invalid key {h} for key type")) }
+fn key<K: HKey>(h: &str) -> K { K::from_key_bytes(&parse_chunk(h)).unwrap_or_else(|| panic!("invalid key {h} for key type")) }
 fn khex<K: HKey>(k: &K) -> String { hex(k.to_key_bytes().as_ref()) }
 
 fn ostats_str<K>(o: &OrphanStats<K>, root: &Path, tr: &TraceReader) -> String {
